@@ -160,4 +160,58 @@ def changeRun (cap buf k : Nat) (xs : List Int) : Bool × Bool × List Int :=
   let (s, term) := roundRobin N 6 (40 * (xs.length + 4)) (changeInit xs k)
   (term, allHaltedB N 6 s, (s.procs 5).1.reg)
 
+/-! ### `trend.MovingSum(c, p)` = Skip(Operate(d0, Shift(d1, p, 0), sum += c − b), p−1) with d0, d1 = Duplicate(c) -/
+
+/-- `Shift(in, out, count, 0)`: send `count` fill values, then copy; `reg` holds the remaining count -/
+def shiftM (inp out : Nat) (l : Loc) : A :=
+  match l.pc with
+  | 0 => if l.reg.headD 0 ≤ 0 then .recv inp (fun r => match r with | some v => ⟨1, [0, v]⟩ | none => ⟨2, []⟩)
+         else .send out 0 ⟨0, [l.reg.headD 0 - 1]⟩
+  | 1 => .send out (l.reg.getD 1 0) ⟨0, [0]⟩
+  | 2 => .close out ⟨3, []⟩
+  | _ => .halt
+
+/-- `Operate(a, b, func(c, b) { sum = sum + c - b; return sum })` (repaired Operate): `reg` holds the running sum -/
+def sumOp (a b out : Nat) (l : Loc) : A :=
+  match l.pc with
+  | 0 => .recv a (fun r => match r with | some v => ⟨1, [l.reg.headD 0, v]⟩ | none => ⟨40, []⟩)
+  | 1 => .recv b (fun r => match r with | some w => ⟨2, [l.reg.headD 0 + l.reg.getD 1 0 - w]⟩ | none => ⟨41, []⟩)
+  | 2 => .send out (l.reg.headD 0) ⟨0, [l.reg.headD 0]⟩
+  | 40 => .close out ⟨10, []⟩
+  | 41 => .close out ⟨20, []⟩
+  | 10 => .recv b (fun r => match r with | some _ => ⟨10, []⟩ | none => ⟨31, []⟩)
+  | 20 => .recv a (fun r => match r with | some _ => ⟨20, []⟩ | none => ⟨31, []⟩)
+  | _ => .halt
+
+/-- processes: 0 producer, 1 Duplicate, 2 Shift, 3 the summing Operate, 4 Skip, 5 reader.
+    channels: 0 c, 1 d0, 2 d1, 3 shifted (capacity `buf`; the library uses cap(d1) + p), 4 sums, 5 result -/
+def msumNet (cap buf : Nat) : Network Loc Int where
+  act := fun p l =>
+    match p with
+    | 0 => producer 0 l
+    | 1 => dup2 0 1 2 l
+    | 2 => shiftM 2 3 l
+    | 3 => sumOp 1 3 4 l
+    | 4 => skipM 4 5 l
+    | 5 => sink 5 l
+    | _ => .halt
+  cap := fun c => match c with | 3 => buf | 4 => 0 | 5 => 0 | _ => cap
+  rd := fun c => match c with | 0 => 1 | 1 => 3 | 2 => 2 | 3 => 3 | 4 => 4 | _ => 5
+  wr := fun c => match c with | 0 => 0 | 1 => 1 | 2 => 1 | 3 => 2 | 4 => 3 | _ => 4
+
+def msumInit (xs : List Int) (p : Nat) : St Loc Int where
+  procs := fun q => match q with
+    | 0 => (⟨0, xs⟩, none)
+    | 2 => (⟨0, [(p : Int)]⟩, none)
+    | 3 => (⟨0, [0]⟩, none)
+    | 4 => (⟨0, [(p : Int) - 1]⟩, none)
+    | _ => (⟨0, []⟩, none)
+  chans := fun _ => ([], false)
+
+/-- (terminal reached, clean, values delivered) for `MovingSum(xs, p)` with input capacity `cap` and a Shift buffer of `buf` -/
+def msumRun (cap buf p : Nat) (xs : List Int) : Bool × Bool × List Int :=
+  let N := msumNet cap buf
+  let (s, term) := roundRobin N 6 (40 * (xs.length + p + 4)) (msumInit xs p)
+  (term, allHaltedB N 6 s, (s.procs 5).1.reg)
+
 end NetM
